@@ -12,6 +12,16 @@ FILES = ["terms", "tags", "features", "notes", "sound_events", "sound_event_anno
 
 
 def hash_problems(repo_src: Path) -> list[str]:
+    """binding problems: a __hash__ that was READ and depends on something that is not a declared field.
+    Shapes the reader does not understand are returned by `hash_unreadable` (advisory)."""
+    return [m for m in _scan(repo_src) if not m.startswith("?")]
+
+
+def hash_unreadable(repo_src: Path) -> list[str]:
+    return [m[1:] for m in _scan(repo_src) if m.startswith("?")]
+
+
+def _scan(repo_src: Path) -> list[str]:
     import importlib
 
     out = []
@@ -25,7 +35,7 @@ def hash_problems(repo_src: Path) -> list[str]:
             body = [s for s in fn.body if not (isinstance(s, ast.Expr) and isinstance(s.value, ast.Constant))]
             if len(body) != 1 or not isinstance(body[0], ast.Return) or not isinstance(body[0].value, ast.Call) \
                or ast.unparse(body[0].value.func) != "hash" or len(body[0].value.args) != 1:
-                out.append(f"{cls.name}.__hash__ is not `return hash(<expression>)`")
+                out.append(f"?{cls.name}.__hash__ is not of the form `return hash(<expression>)`")
                 continue
             fields = set(getattr(pym, cls.name).model_fields)
             arg = body[0].value.args[0]
@@ -40,5 +50,5 @@ def hash_problems(repo_src: Path) -> list[str]:
             # nothing else in the class may shadow hashing / equality
             for m in cls.body:
                 if isinstance(m, ast.FunctionDef) and m.name in ("__eq__", "__ne__"):
-                    out.append(f"{cls.name} defines {m.name} by hand")
+                    out.append(f"?{cls.name} defines {m.name} by hand")
     return out
